@@ -33,6 +33,9 @@ pub struct NameSpec {
     /// the route is chosen from the name alone, whatever is asked about it
     #[serde(default = "qtype_a")]
     pub qtype: u16,
+    /// ... and in whatever class
+    #[serde(default = "qtype_a")]
+    pub qclass: u16,
 }
 
 fn qtype_a() -> u16 {
@@ -77,8 +80,10 @@ pub fn route_case_strategy(max_names: usize) -> impl Strategy<Value = RouteCase>
                     1 => Just(12u16), 1 => Just(5u16), 1 => Just(33u16), 1 => Just(65u16), 1 => Just(16u16),
                     2 => (1u16..=254).prop_filter("not OPT", |t| *t != 41),
                 ],
+                // IN mostly; CHAOS, HESIOD, CSNET, NONE
+                prop_oneof![12 => Just(1u16), 2 => Just(3u16), 1 => Just(4u16), 1 => Just(2u16), 1 => Just(254u16)],
             )
-                .prop_map(|(route, suffix, extra, case_mask, near, rd, qtype)| NameSpec {
+                .prop_map(|(route, suffix, extra, case_mask, near, rd, qtype, qclass)| NameSpec {
                     route,
                     suffix,
                     extra,
@@ -86,6 +91,7 @@ pub fn route_case_strategy(max_names: usize) -> impl Strategy<Value = RouteCase>
                     near,
                     rd,
                     qtype,
+                    qclass,
                 }),
             4..=max_names,
         ),
@@ -279,7 +285,7 @@ impl C15Routes {
                 .map(|(i, n)| {
                     s.spawn(move || {
                         let name = build_name(c, n);
-                        let mut q = dns::query(0x3000 + i as u16, &name, n.qtype, 1, n.rd, None);
+                        let mut q = dns::query(0x3000 + i as u16, &name, n.qtype, n.qclass, n.rd, None);
                         q.header.rd = n.rd;
                         let bytes = dns::encode(&q, dns::Compress::Off);
                         // no-RD queries expect REFUSED, which only TCP shows reliably
@@ -317,9 +323,13 @@ impl C15Routes {
             let q = dns::Question {
                 name: name.clone(),
                 qtype: n.qtype,
-                qclass: 1,
+                qclass: n.qclass,
             };
             let key = qkey(&q);
+            if n.qclass != 1 {
+                out.class("class-other-than-IN");
+                out.nontrivial = true;
+            }
             let asked: Vec<usize> = self
                 .ups
                 .iter()
